@@ -66,6 +66,18 @@ def send_all_summary(P, g):
     return (k, pk)
 
 
+def _const_bits(f, op):
+    """bits of the constant an operand is (through plain copies), else None"""
+    seen = set()
+    while op["k"] in ("copy", "move") and not op["place"]["proj"] and op["place"]["local"] not in seen:
+        seen.add(op["place"]["local"])
+        defs = [d for d in f.defs.get(op["place"]["local"], ()) if not d[3]["proj"]]
+        if len(defs) != 1 or defs[0][0] != "assign" or defs[0][4]["k"] != "use":
+            return None
+        op = defs[0][4]["op"]
+    return op.get("bits") if op["k"] == "const" else None
+
+
 def helper_sends(P, fn):
     """Calls in `fn` to send-all helpers: [(callsite, param index, kind)]"""
     out = []
@@ -568,7 +580,11 @@ def c03_r5(ctx):
                     ctx.ok()
             else:
                 consts = {o for o in io if o[0][0] == "const"}
-                if io != consts or {o[0][1] for o in io} != {"0_usize"}:
+                if io != consts:
+                    # an index that is computed (carried beside the sender, ..): its value is not
+                    # something this rule can read
+                    raise AnalysisError("idiom not recognised: the index a leaf announces in %s is not a constant" % cl.id)
+                if {o[0][1] for o in io} != {"0_usize"} and _const_bits(cl, g.args[1]) != "0":
                     ctx.viol((cl.id, "leaf-subindex"), "a leaf announces something other than its only file's hash", g.where)
                 else:
                     ctx.ok()
@@ -892,6 +908,11 @@ def c03_r4(ctx):
             if len(tgt) == 1 and tgt[0][0] == nodes_v and tgt[0][1] == oe and tgt[0][2] == (("field", 2),):
                 recv_push.append(p)
                 ctx.ok()
+            elif len(tgt) == 1 and tgt[0][3] is None and all(o[0][0] == "var" and len(o) == 1 for o in f.vars_of_operand(p.args[0])) \
+                    and f.vars_of_operand(p.args[0]) not in (nodes_v, leaves_v):
+                # gathered in a local vector first and installed later: where it ends up is a second
+                # step this rule does not follow
+                raise AnalysisError("idiom not recognised: %s collects the receivers of a node in a local vector before giving them to the node" % f.id)
             else:
                 ctx.viol((f.id, "receiver-misplaced"), "a receiver is not given to the node being wired", p.where)
         elif vo == S:
